@@ -176,14 +176,32 @@ where
         let mut reader =
             BinaryReader::new(&mut self.read_stream, encoding_options());
 
+        // The trailing row length must lie after the header
+        if row_pos < self.header_offset + 4 {
+            return Err(std::io::Error::new(
+                std::io::ErrorKind::UnexpectedEof,
+                "row length marker overlaps the file header",
+            )
+            .into());
+        }
+
         // Read in the reverse iteration row length
         reader.seek(SeekFrom::Start(row_pos - 4)).await?;
         let row_len = reader.read_u32().await?;
 
+        // The row must fit between the header and this position
+        let row_size = row_len as u64 + 8;
+        if row_size > row_pos - self.header_offset {
+            return Err(std::io::Error::new(
+                std::io::ErrorKind::InvalidData,
+                "row length exceeds the preceding file content",
+            )
+            .into());
+        }
+
         // Position of the beginning of the row
-        // FIXME: handle panic on overflow when file length is too short
-        let row_start = row_pos - (row_len as u64 + 8);
-        let row_end = row_start + (row_len as u64 + 8);
+        let row_start = row_pos - row_size;
+        let row_end = row_start + row_size;
 
         // Seek to the beginning of the row after the initial
         // row length so we can read in the row data
